@@ -728,13 +728,16 @@ theorem decodeRow_RT (columnCount : Nat) (row : Option (List (Option Bytes))) (h
 
 theorem decodeRowsData_RT (columnCount : Nat) (data : List (Option (List (Option Bytes))))
     (hc : columnCount < 2147483648) (hl : data.length < 2147483648) (hv : ∀ row ∈ data, ValidRow columnCount row)
-    (rest : Bytes) :
+    (hz : data ≠ [] → columnCount ≠ 0) (rest : Bytes) :
     (decodeRowsData columnCount).run (encodeRowsData data ++ rest) = .ok (data.map canonRow, rest) := by
   have hl' : data.length < 4294967296 := by omega
   have hn1 : isNeg32 data.length = false := by rw [isNeg32]; exact decide_eq_false (by omega)
   have hn2 : isNeg32 columnCount = false := by rw [isNeg32]; exact decide_eq_false (by omega)
   rw [decodeRowsData, encodeRowsData, Nat.mod_eq_of_lt hl', List.append_assoc, bind_ok (readInt_RT _ hl' _), hn1, hn2,
-    if_neg (by decide), if_neg (by decide)]
+    if_neg (by decide), if_neg (by decide),
+    if_neg (by
+      intro h
+      exact hz (List.ne_nil_of_length_pos h.1) h.2)]
   exact readN_RT _ encodeRow canonRow data (fun row hr r => decodeRow_RT columnCount row (hv row hr) r) rest
 
 theorem encodeRow_len (row : Option (List (Option Bytes))) : (encodeRow row).length = lengthOfRow row := by
@@ -756,6 +759,8 @@ structure ValidRowsBody (version : Nat) (r : RowsResult) : Prop where
   metadata : ∀ m, r.metadata = some m → ValidRowsMetadata version m
   rowCount : ∀ d, r.data = some d → d.length < 2147483648
   rows : ∀ d, r.data = some d → ∀ row ∈ d, ValidRow (r.metadata.getD RowsMetadata.zero).columnCount row
+  /-- a row has at least one column (`<columns_count>` is the number of columns the query selected) -/
+  someColumn : ∀ d, r.data = some d → d ≠ [] → (r.metadata.getD RowsMetadata.zero).columnCount ≠ 0
 
 /-- what the wire cannot carry:
     * a nil `Metadata` pointer is encoded as `&RowsMetadata{}`; the decoder always returns a struct;
@@ -783,7 +788,11 @@ theorem decodeRowsBody_RT (version : Nat) (r : RowsResult) (hv : ValidRowsBody v
   have hcc : (canonRowsMetadata version r.metadata).columnCount = (r.metadata.getD RowsMetadata.zero).columnCount := rfl
   rw [← Res.pure_ok_inv hw, List.append_assoc, decodeRowsBody,
     bind_ok (decodeRowsMetadata_RT version r.metadata hv.metadata mb hm _), hcc,
-    bind_ok (decodeRowsData_RT _ _ (ValidRowsMetadata.getD hv.metadata).columnCount hl hrows rest)]
+    bind_ok (decodeRowsData_RT _ _ (ValidRowsMetadata.getD hv.metadata).columnCount hl hrows
+      (by
+        cases hd : r.data with
+        | none => intro h; exact absurd rfl h
+        | some d => intro h; exact hv.someColumn d hd h) rest)]
   rfl
 
 -- SUSPECT: the hypothesis `hm` is forced. `EncodedLength` refuses a nil `Metadata` although `Encode` accepts it (it
@@ -880,6 +889,7 @@ example : ValidRowsBody 4 exRowsResult where
     cases h
     simp only [List.mem_cons, List.mem_nil_iff, or_false] at hr
     rcases hr with rfl | rfl | rfl <;> exact validRow_of _ _ rfl (by decide)
+  someColumn := by intro d h _; cases h; decide
 
 /-- a rows result with full metadata (the two-column example above) and one row -/
 example : ValidRowsBody 4 ⟨some exRowsMetadata, some [some [some [0, 0, 0, 1, 0, 0, 0, 0], some [120]]]⟩ where
@@ -891,6 +901,7 @@ example : ValidRowsBody 4 ⟨some exRowsMetadata, some [some [some [0, 0, 0, 1, 
     simp only [List.mem_cons, List.mem_nil_iff, or_false] at hr
     rcases hr with rfl
     exact validRow_of _ _ rfl (by decide)
+  someColumn := by intro d h _; cases h; decide
 
 /-- bind variables "a", "c" of table k.t (global table spec), partition key = second variable -/
 def exVariables : VariablesMetadata := { pkIndices := some [1], columns := some [exColA, exColC] }
